@@ -78,8 +78,10 @@ def _child(mod, shard, outfile):
 
     try:
         faulthandler.dump_traceback_later(shard.get("wall_limit_s", 900) + 30, exit=True)
+        t0 = time.time()
         res = mod.run_shard(shard)
         res.setdefault("shard", shard.get("name"))
+        res["shard_wall_s"] = {str(shard.get("name")): round(time.time() - t0, 1)}
         with open(outfile + ".tmp", "w") as f:
             json.dump(res, f)
         os.rename(outfile + ".tmp", outfile)
@@ -252,28 +254,29 @@ def main(argv=None):
     violations = []
     finding_report = {}
     for e in findings:
-        wit = e.get("witness")
-        if not wit:
-            continue
-        wpath = os.path.join(VERIF, wit)
-        with open(wpath) as f:
-            doc = json.load(f)
-        if doc.get("property") != prop:
-            continue
-        got = mod.replay(doc)
-        reproduced = [v for v in got if v.get("signature") == doc.get("expected_signature")]
-        if e.get("status") == "open":
-            if reproduced:
-                known_lines.append("KNOWN-FINDING: property=%s %s %s" % (prop, e["id"], e["what"]))
-                finding_report[e["id"]] = {"witness_reproduces": True, "absorbed": 0}
-            else:
-                print("note: finding %s no longer reproduces on this tree (witness %s)" % (e["id"], wit))
-                finding_report[e["id"]] = {"witness_reproduces": False, "absorbed": 0}
-                # anything else the witness shows is an ordinary violation
+        wits = e.get("witnesses") or ([e["witness"]] if e.get("witness") else [])
+        for wit in wits:
+            wpath = os.path.join(VERIF, wit)
+            with open(wpath) as f:
+                doc = json.load(f)
+            if doc.get("property") != prop:
+                continue
+            got = mod.replay(doc)
+            reproduced = [v for v in got if v.get("signature") == doc.get("expected_signature")]
+            rep = finding_report.setdefault(e["id"], {"status": e.get("status"), "witnesses": {}, "absorbed": 0})
+            if e.get("status") == "open":
+                rep["witnesses"][wit] = bool(reproduced)
+                if reproduced:
+                    line = "KNOWN-FINDING: property=%s %s %s" % (prop, e["id"], e["what"])
+                    if line not in known_lines:
+                        known_lines.append(line)
+                else:
+                    print("note: finding %s: witness %s no longer reproduces on this tree" % (e["id"], wit))
+                    # anything else the witness shows is an ordinary violation (subject to the findings policy)
+                    violations.extend(got)
+            else:  # fixed entries suppress nothing: the witness is a regression case
+                rep["witnesses"][wit] = "regressed" if got else "holds"
                 violations.extend(got)
-        else:  # fixed entries suppress nothing
-            finding_report[e["id"]] = {"fixed": True, "regressed": bool(got)}
-            violations.extend(got)
 
     # 2. explore
     limit = float(os.environ.get("VERIF_WALL_S", "0")) or getattr(mod, "WALL_S", {"quick": 240, "thorough": 3000})[tier]
@@ -311,7 +314,7 @@ def main(argv=None):
                 break
         if owner is not None:
             finding_report.setdefault(owner["id"], {"absorbed": 0})
-            finding_report[owner["id"]]["absorbed"] = finding_report[owner["id"]].get("absorbed", 0) + 1
+            finding_report[owner["id"]]["absorbed"] = finding_report[owner["id"]].get("absorbed", 0) + 1 + v.get("count_more", 0)
             line = "KNOWN-FINDING: property=%s %s %s" % (prop, owner["id"], owner["what"])
             if line not in known_lines:
                 known_lines.append(line)
